@@ -934,7 +934,11 @@ func (c *Conn) flush() error {
 			continue
 		}
 		if errors.Is(err, syscall.EAGAIN) {
-			// c.modWrite()
+			// With EPOLLONESHOT the event that brought us here has been
+			// consumed: re-arm, or the rest of the backlog is never sent.
+			if c.p.g.isOneshot {
+				_ = c.p.modWrite(c.fd)
+			}
 			return nil
 		}
 		if err != nil {
